@@ -186,6 +186,9 @@ def run_one(h, repo_copy, logdir, extra_args=None, mem_gb=None):
     return r
 
 
+# C04's statement: a successful call "returns a handle satisfying C01/C03": their post-conditions on the returned handle are part of it
+INCLUDES = {"C04": ("C01", "C03")}
+
 MEMSAFE = ("dereference failure", "pointer", "memcpy", "memset", "index out of bounds", "offset", "out of bounds",
            "misaligned", "invalid", "free", "deallocat", "NULL")
 
@@ -210,7 +213,7 @@ def classify(h, r, pid):
     for c in fails:
         m = re.search(r"\b(C\d\d): ", c["desc"])
         if m:
-            if m.group(1) == pid:
+            if m.group(1) == pid or m.group(1) in INCLUDES.get(pid, ()):
                 mine.append(c)
         else:
             if pid in h.builtin:
